@@ -131,6 +131,21 @@ def run(tier):
             ch = [stream[k:k + step] for k in range(0, len(stream), step)]
         cases.append(("big", pre, ch, segs))
         oc.stat("messages_larger_than_64KiB")
+    # more than 64 KiB of line noise between two messages, in one chunk (offsets inside a chunk are not 16 bit wide either)
+    for i in range(8 if thorough else 3):
+        pre = r.choice(PREAMBLES)
+        p0 = pre & 0xFF
+        nfill = [70000, 65536, 200000, 65535, 131072][i % 5]
+        noise = [x for x in ((j * 11 + i) % 253 for j in range(nfill + 300)) if x != p0][:nfill]
+        first = rand_stream(r, pre, 1, maxpay=8, maxfill=0)
+        last = rand_stream(r, pre, 2, maxpay=8, maxfill=0)
+        if first and first[-1][0] == "p":
+            first = [("m", rand_msg(r, pre, 8))]
+        segs = first + [("f", noise)] + last
+        stream = flat(segs)
+        ch = [stream] if i % 2 == 0 else [stream[:len(flat(first)) + 3], stream[len(flat(first)) + 3:]]
+        cases.append(("big", pre, ch, segs))
+        oc.stat("noise_of_more_than_64KiB_in_one_chunk")
     for i in range(6000 if thorough else 800):
         pre = r.choice(PREAMBLES)
         p0, p1 = pre & 0xFF, pre >> 8
